@@ -34,6 +34,11 @@ Definition run_case (c : sexp) : sexp :=
     let m := get_N (arg c 0) in
     SList (map (fun x => let '(out, w) := write_fcall m true (fcall_of_sexp x) in SList [SBytes out; sexp_of_write_res w])
                (get_list (arg c 1)))
+  else if head_is c "read2" then
+    (* k reads at msize0, then SetMSize(msize), then n more reads on the same channel and stream *)
+    let '(os1, b, rest) := read_many_st (N.to_nat (get_N (arg c 1))) (get_N (arg c 0)) [] (get_bytes (arg c 4)) in
+    let os2 := read_many (N.to_nat (get_N (arg c 3))) (get_N (arg c 2)) b rest in
+    SList (map sexp_of_read_out (os1 ++ os2))
   else if head_is c "read" then
     SList (map sexp_of_read_out (read_many (N.to_nat (get_N (arg c 1))) (get_N (arg c 0)) [] (get_bytes (arg c 2))))
   else if head_is c "shake-server" then
